@@ -39,8 +39,9 @@ impl DocFlags {
             para_trailing_comment: rng.chance(1, 4),
             leading_trivia: rng.chance(1, 3),
             trailing_trivia: rng.chance(1, 3),
-            max_paras: 1 + rng.below(4),
-            max_fields: 1 + rng.below(5),
+            // one document in 80 is big (dozens of paragraphs / fields): size thresholds, quadratic paths
+            max_paras: if rng.chance(1, 80) { 10 + rng.below(40) } else { 1 + rng.below(4) },
+            max_fields: if rng.chance(1, 80) { 20 + rng.below(80) } else { 1 + rng.below(5) },
             multiline: rng.chance(2, 3),
             empty_values: rng.chance(1, 4),
         }
@@ -88,7 +89,9 @@ pub fn name(rng: &mut Rng, collide: bool) -> String {
 /// One non-empty value line without leading whitespace and without CR/LF.
 pub fn value_line(rng: &mut Rng, non_ascii: bool, continuation: bool) -> String {
     let long = rng.chance(1, 8);
-    let len = 1 + rng.below(if long { 40 } else { 9 });
+    // one line in 60 is long enough to pass any wrapping / buffering threshold
+    let huge = rng.chance(1, 60);
+    let len = if huge { 90 + rng.below(1500) } else { 1 + rng.below(if long { 40 } else { 9 }) };
     let mut s = String::new();
     for i in 0..len {
         let piece: String = match rng.below(12) {
